@@ -41,6 +41,22 @@ mutual
     | _ :: _, hp, hq => ⟨spec_tyAll_and hp.1 hq.1, spec_tyAllL_and hp.2 hq.2⟩
 end
 
+mutual
+  theorem spec_tyAll_imp {P Q : Ty → Prop} (hpq : ∀ t, P t → Q t) : ∀ {T : Ty}, TyAll P T → TyAll Q T
+    | .union _ _, hp => ⟨hpq _ hp.1, spec_tyAllL_imp hpq hp.2⟩
+    | .iter _ _ _, hp => ⟨hpq _ hp.1, spec_tyAll_imp hpq hp.2⟩
+    | .tuple _, hp => ⟨hpq _ hp.1, spec_tyAllL_imp hpq hp.2⟩
+    | .dict _ _, hp => ⟨hpq _ hp.1, spec_tyAll_imp hpq hp.2.1, spec_tyAll_imp hpq hp.2.2⟩
+    | .scalar _, hp => hpq _ hp
+    | .any, hp => hpq _ hp
+    | .literal _, hp => hpq _ hp
+    | .model _, hp => hpq _ hp
+  theorem spec_tyAllL_imp {P Q : Ty → Prop} (hpq : ∀ t, P t → Q t) : ∀ {cs : List Ty},
+      TyAllL P cs → TyAllL Q cs
+    | [], _ => trivial
+    | _ :: _, hp => ⟨spec_tyAll_imp hpq hp.1, spec_tyAllL_imp hpq hp.2⟩
+end
+
 theorem spec_depthL_le {n : Nat} : ∀ {cs : List Ty}, depthL cs ≤ n ↔ ∀ c ∈ cs, depth c ≤ n
   | [] => by simp [depthL]
   | c :: cs => by simp [depthL, Nat.max_le, spec_depthL_le (cs := cs)]
